@@ -538,7 +538,7 @@ Lemma ante_spec cfg s t chk s1 :
   seq_bumped s s1 t /\ allow_others s s1 t.
 Proof.
   unfold ante. destruct (t_gas_out t) eqn:Eg; try discriminate.
-  all: destruct (t_gas t <=? 0); [discriminate|]; destruct (gas_tx_limit <? t_gas t); [discriminate|];
+  all: destruct (t_gas t <=? 0); [discriminate|]; destruct (negb (only_gov t) && (gas_tx_limit <? t_gas t)); [discriminate|];
     destruct (calc cfg dist0 (routed_top t)) as [fd|] eqn:Ec; [|discriminate];
     destruct (chk && negb (ensure cfg (t_fee t) (t_gas t) (d_total fd))) eqn:Ee; [discriminate|];
     destruct (use_grant s t (base_fee cfg (t_gas t))) as [[s0 src]|] eqn:Eu; [|discriminate];
@@ -609,27 +609,29 @@ Qed.
 Lemma deliver_cases cfg s t s' r :
   deliver cfg s t = (s', r) ->
   (r = RAnteFail /\ s' = s) \/
-  (exists s1, ante cfg s t false = Some s1 /\
+  (exists s1, ante cfg s t false = Some s1 /\ t_gas_out t <> GasBlockFull /\
      ((r = RFailed /\ s' = s1) \/
-      (r = ROk /\ exists b2 m, route_all cfg t (bal s1, meter0) (routed_all t) = Some (b2, m) /\
-                               fee_invoke cfg (with_bal s1 b2) t (base_fee cfg (t_gas t)) m = Some s'))).
+      (r = ROk /\ t_gas_out t = GasOk /\
+       exists b2 m, route_all cfg t (bal s1, meter0) (routed_all t) = Some (b2, m) /\
+                    fee_invoke cfg (with_bal s1 b2) t (base_fee cfg (t_gas t)) m = Some s'))).
 Proof.
-  unfold deliver. destruct (ante cfg s t false) as [s1|] eqn:Ea.
-  - intros H. right. exists s1. split; [reflexivity|].
-    destruct (t_gas_out t).
-    2, 3: try (inversion H; subst; left; auto; fail).
-    all: destruct (route_all cfg t (bal s1, meter0) (routed_all t)) as [[b2 m]|] eqn:Er;
-      [|inversion H; subst; left; auto];
-      destruct (fee_invoke cfg (with_bal s1 b2) t (base_fee cfg (t_gas t)) m) as [s3|] eqn:Ef;
-      inversion H; subst; [right; split; [reflexivity|]; exists b2, m; auto | left; auto].
-  - intros H. inversion H. subst. left. auto.
+  unfold deliver. destruct (t_gas_out t) eqn:Eg.
+  5: { intros H. inversion H. subst. left. auto. }
+  all: destruct (ante cfg s t false) as [s1|] eqn:Ea; [|intros H; inversion H; subst; left; auto].
+  all: intros H; right; exists s1; (split; [reflexivity|]); (split; [discriminate|]).
+  3, 4: inversion H; subst; left; auto.
+  2: { apply ante_spec in Ea. destruct Ea as (Hn & _). congruence. }
+  destruct (route_all cfg t (bal s1, meter0) (routed_all t)) as [[b2 m]|] eqn:Er;
+    [|inversion H; subst; left; auto].
+  destruct (fee_invoke cfg (with_bal s1 b2) t (base_fee cfg (t_gas t)) m) as [s3|] eqn:Ef;
+    inversion H; subst; [right; split; [reflexivity|]; split; [reflexivity|]; exists b2, m; auto | left; auto].
 Qed.
 
 Lemma deliver_failed cfg s t s' :
   deliver cfg s t = (s', RFailed) ->
   (forall a d, bal s' a d = bal s a d + spec_fail_delta cfg t a d) /\ seq_bumped s s' t /\ allow_others s s' t.
 Proof.
-  intros H. apply deliver_cases in H. destruct H as [(Hr & _)|(s1 & Ea & [(_ & ->)|(Hr & _)])]; try discriminate.
+  intros H. apply deliver_cases in H. destruct H as [(Hr & _)|(s1 & Ea & _ & [(_ & ->)|(Hr & _)])]; try discriminate.
   apply ante_spec in Ea. tauto.
 Qed.
 
@@ -640,7 +642,7 @@ Lemma deliver_ok cfg s t s' :
   seq_bumped s s' t /\ allow_others s s' t.
 Proof.
   intros Hc Hw H. pose proof Hw as (Hfee & Hall).
-  apply deliver_cases in H. destruct H as [(Hr & _)|(s1 & Ea & [(Hr & _)|(_ & b2 & m & Er & Ef)])]; try discriminate.
+  apply deliver_cases in H. destruct H as [(Hr & _)|(s1 & Ea & _ & [(Hr & _)|(_ & _ & b2 & m & Er & Ef)])]; try discriminate.
   apply ante_spec in Ea. destruct Ea as (_ & _ & Hb1 & Hs1 & Ha1).
   apply route_all_spec in Er; try assumption. destruct Er as (Xm & (Rr & Rs & Rc) & F).
   cbn [meter0 mt_recips mt_module map amount_of consumed app] in Rr, Rs, Rc.
@@ -772,8 +774,8 @@ Lemma step_clauses cfg s t : wf_cfg cfg -> wf_tx t ->
 Proof.
   intros Hc Hw. cbn [step]. destruct (check_tx cfg s t) eqn:Ea; [|reflexivity].
   destruct (deliver cfg s t) as [s' r] eqn:Ed. cbn [fst snd]. destruct r; cbn [tx_clauses].
-  - apply deliver_cases in Ed. destruct Ed as [(Hr & _)|(s1 & _ & [(Hr & _)|(Hr & _)])]; discriminate.
-  - apply deliver_cases in Ed. destruct Ed as [(_ & ->)|(s1 & _ & [(Hr & _)|(Hr & _)])]; try discriminate. reflexivity.
+  - apply deliver_cases in Ed. destruct Ed as [(Hr & _)|(s1 & _ & _ & [(Hr & _)|(Hr & _)])]; discriminate.
+  - apply deliver_cases in Ed. destruct Ed as [(_ & ->)|(s1 & _ & _ & [(Hr & _)|(Hr & _)])]; try discriminate. reflexivity.
   - apply deliver_failed. assumption.
   - apply deliver_ok; assumption.
 Qed.
